@@ -210,6 +210,8 @@ func checkC02(c *Ctx, r *Report) {
 		var kinds []string
 		var rootCell ssa.Value
 		var tagTable ssa.Value
+		iterative := false
+		var rootRets []*ssa.Return
 		eachInstr(matcher, func(in ssa.Instruction) {
 			ret, ok := in.(*ssa.Return)
 			if !ok {
@@ -226,7 +228,18 @@ func checkC02(c *Ctx, r *Report) {
 							okEdge = true
 						}
 					}
-					if !okEdge || lk.Index != matcher.Params[0] {
+					keyOK := lk.Index == matcher.Params[0]
+					if phi, ok := lk.Index.(*ssa.Phi); ok {
+						// iterative form: the key is the parameter on entry and a string derived from the previous
+						// key on every later round
+						keyOK, iterative = true, true
+						for _, e := range phi.Edges {
+							if e != matcher.Params[0] && !pureStringPredicate(e, 0) {
+								keyOK = false
+							}
+						}
+					}
+					if !okEdge || !keyOK {
 						bad = append(bad, "table hit returned without its ok test or for a different key")
 					}
 					if ld, ok := lk.X.(*ssa.UnOp); ok {
@@ -239,6 +252,7 @@ func checkC02(c *Ctx, r *Report) {
 				if fv, ok := x.X.(*ssa.FreeVar); ok {
 					rootCell = fv
 					kinds = append(kinds, "root")
+					rootRets = append(rootRets, ret)
 					return
 				}
 			case *ssa.Call:
@@ -250,9 +264,40 @@ func checkC02(c *Ctx, r *Report) {
 			}
 			bad = append(bad, "returns "+c.prov(v, &Frame{Fn: matcher}).String()+" (neither a table hit, the configured root nor a recursive call)")
 		})
+		if iterative {
+			kinds = append(kinds, "recursive") // the next round of the loop plays the recursive call's part
+		}
 		sort.Strings(kinds)
 		if strings.Join(kinds, ",") != "recursive,root,table-hit" {
 			bad = append(bad, fmt.Sprintf("return kinds %v, want table-hit, root, recursive", kinds))
+		}
+		// the root fallback is taken only when no underscore-delimited proper prefix is left: with
+		// i = strings.LastIndex(key, "_"), every root return after it is guarded by conditions implying i <= 0
+		var idx *ssa.Call
+		eachInstr(matcher, func(in ssa.Instruction) {
+			if call, ok := in.(*ssa.Call); ok && calleeIs(call, "strings", "", "LastIndex") && len(call.Call.Args) == 2 {
+				if sep, ok := constString(call.Call.Args[1]); ok && sep == "_" {
+					idx = call
+				}
+			}
+		})
+		if idx != nil {
+			lc := &linCtx{c: c, fn: matcher, vars: map[string]ssa.Value{}}
+			iv := linVar(lc.varName(idx))
+			for _, ret := range rootRets {
+				if !instrDominates(idx, ret) {
+					continue
+				}
+				facts := []Ineq{{iv.add(linConst(1), 1)}} // LastIndex >= -1
+				for _, g := range guardsOfInstr(ret) {
+					if fs, ok := lc.condFacts(g.Cond, g.Polarity); ok {
+						facts = append(facts, fs...)
+					}
+				}
+				if ok, wit := implies(facts, Ineq{iv.scale(-1)}); !ok {
+					bad = append(bad, fmt.Sprintf("the root logger is returned at %s while a proper underscore-delimited prefix is still left to try (strings.LastIndex result can be positive there, e.g. %s): a wildcard on that prefix is skipped", c.instrPos(ret), wit))
+				}
+			}
 		}
 		// the root cell: initialised to the built-in logger, overwritten only under name == root
 		if rootCell != nil {
@@ -336,9 +381,15 @@ func (c *Ctx) checkAllTagsKept(r *Report, fns []*ssa.Function) {
 			n++
 			key := "C02.all-tags:" + fname(f)
 			var bad []string
+			// only conditions evaluated after the list entry was obtained can filter entries; what guards the
+			// whole loop (earlier errors of Refresh) is not a filter on tags
+			origin := listEntryOrigin(call)
 			for _, g := range guardsOfInstr(in) {
 				if strings.Contains(in.Block().Comment, "yield") && strings.Contains(g.If.Block().Comment, "entry") {
 					continue // compiler-inserted range-over-func state test
+				}
+				if origin != nil && !origin.Dominates(g.If.Block()) {
+					continue
 				}
 				if !pureStringPredicate(g.Cond, 0) {
 					bad = append(bad, c.prov(g.Cond, &Frame{Fn: f}).String())
@@ -356,12 +407,79 @@ func (c *Ctx) checkAllTagsKept(r *Report, fns []*ssa.Function) {
 	}
 }
 
+// listEntryOrigin: for append(list, entry) where entry derives (through strings.* calls) from an element loaded out of
+// a strings.Split/Fields result, the block of that load; nil when the entry is a parameter (range-over-func body)
+// or cannot be traced — then every guard counts.
+func listEntryOrigin(app *ssa.Call) *ssa.BasicBlock {
+	if len(app.Call.Args) < 2 {
+		return nil
+	}
+	sl, ok := app.Call.Args[1].(*ssa.Slice)
+	if !ok {
+		return nil
+	}
+	al, ok := sl.X.(*ssa.Alloc)
+	if !ok || al.Referrers() == nil {
+		return nil
+	}
+	var v ssa.Value
+	for _, rf := range *al.Referrers() {
+		if ia, ok := rf.(*ssa.IndexAddr); ok && ia.Referrers() != nil {
+			for _, u := range *ia.Referrers() {
+				if st, ok := u.(*ssa.Store); ok && st.Addr == ia {
+					v = st.Val
+				}
+			}
+		}
+	}
+	for d := 0; v != nil && d < 8; d++ {
+		switch x := v.(type) {
+		case *ssa.Call:
+			if s := x.Common().StaticCallee(); s != nil && s.Object() != nil && s.Object().Pkg() != nil && s.Object().Pkg().Path() == "strings" && len(x.Call.Args) > 0 {
+				v = x.Call.Args[0]
+				continue
+			}
+		case *ssa.Extract:
+			v = x.Tuple
+			continue
+		}
+		break
+	}
+	if isSplitElem(v) {
+		return v.(*ssa.UnOp).Block()
+	}
+	return nil
+}
+
+// isSplitElem: v is an element loaded from the result of a strings.* splitting call.
+func isSplitElem(v ssa.Value) bool {
+	ld, ok := v.(*ssa.UnOp)
+	if !ok || ld.Op != token.MUL {
+		return false
+	}
+	ia, ok := ld.X.(*ssa.IndexAddr)
+	if !ok {
+		return false
+	}
+	call, ok := ia.X.(*ssa.Call)
+	if !ok {
+		return false
+	}
+	s := call.Common().StaticCallee()
+	return s != nil && s.Object() != nil && s.Object().Pkg() != nil && s.Object().Pkg().Path() == "strings"
+}
+
 // pureStringPredicate: v is computed only from parameters, constants, string comparisons and strings.* calls
 // (no map/slice/field/global reads).
 func pureStringPredicate(v ssa.Value, d int) bool {
-	if d > 12 {
+	return pureStringPred(v, d, map[*ssa.Phi]bool{})
+}
+
+func pureStringPred(v ssa.Value, d int, busy map[*ssa.Phi]bool) bool {
+	if d > 24 {
 		return false
 	}
+	pureStringPredicate := func(v ssa.Value, d int) bool { return pureStringPred(v, d, busy) }
 	switch x := v.(type) {
 	case *ssa.Const, *ssa.Parameter:
 		return true
@@ -375,7 +493,8 @@ func pureStringPredicate(v ssa.Value, d int) bool {
 		if fv, ok := x.X.(*ssa.FreeVar); ok && strings.HasPrefix(fv.Name(), "jump$") {
 			return true
 		}
-		return false
+		// the list entry itself, in the indexed-loop form
+		return isSplitElem(x)
 	case *ssa.Call:
 		s := x.Common().StaticCallee()
 		if s == nil || s.Object() == nil || s.Object().Pkg() == nil || s.Object().Pkg().Path() != "strings" {
@@ -389,7 +508,19 @@ func pureStringPredicate(v ssa.Value, d int) bool {
 		return true
 	case *ssa.Extract:
 		return pureStringPredicate(x.Tuple, d+1)
+	case *ssa.Slice:
+		for _, e := range []ssa.Value{x.X, x.Low, x.High} {
+			if e != nil && !pureStringPredicate(e, d+1) {
+				return false
+			}
+		}
+		return true
 	case *ssa.Phi:
+		if busy[x] {
+			return true // loop-carried: decided by the other edges
+		}
+		busy[x] = true
+		defer delete(busy, x)
 		for _, e := range x.Edges {
 			if e != v && !pureStringPredicate(e, d+1) {
 				return false
